@@ -27,6 +27,15 @@ from paramiko.util import b
 from paramiko.ssh_exception import SSHException, PasswordRequiredException
 
 
+def _get_text(message):
+    # Cipher, kdf and key type names are ASCII; a field that does not even
+    # decode means the key file is invalid.
+    try:
+        return message.get_text()
+    except UnicodeDecodeError:
+        raise SSHException("Invalid key")
+
+
 class Ed25519Key(PKey):
     """
     Representation of an `Ed25519 <https://ed25519.cr.yp.to/>`_ key.
@@ -85,8 +94,8 @@ class Ed25519Key(PKey):
         if message.get_bytes(len(OPENSSH_AUTH_MAGIC)) != OPENSSH_AUTH_MAGIC:
             raise SSHException("Invalid key")
 
-        ciphername = message.get_text()
-        kdfname = message.get_text()
+        ciphername = _get_text(message)
+        kdfname = _get_text(message)
         kdfoptions = message.get_binary()
         num_keys = message.get_int()
 
@@ -112,7 +121,7 @@ class Ed25519Key(PKey):
         public_keys = []
         for _ in range(num_keys):
             pubkey = Message(message.get_binary())
-            if pubkey.get_text() != self.name:
+            if _get_text(pubkey) != self.name:
                 raise SSHException("Invalid key")
             public_keys.append(pubkey.get_binary())
 
@@ -155,7 +164,7 @@ class Ed25519Key(PKey):
 
         signing_keys = []
         for i in range(num_keys):
-            if message.get_text() != self.name:
+            if _get_text(message) != self.name:
                 raise SSHException("Invalid key")
             # A copy of the public key, again, ignore.
             public = message.get_binary()
